@@ -77,7 +77,8 @@ fn strategy(tier: Tier) -> BoxedStrategy<Case> {
                         let cycle = (i / limit as usize) as u32;
                         let (a_w, a_r) = side_scripts(na.max(1), &ca, linger);
                         let (b_w, b_r) = side_scripts(nb, &cb, linger);
-                        plans.push(ConnPlan { from: 0, to: 1, start_ms: cycle * cycle_ms + (i % limit as usize) as u32 * 3, key, a_w, a_r, b_w, b_r });
+                        plans.push(ConnPlan { from: 0, to: 1, // (one connect at a time: how many connects may be pending towards one address is an internal constant)
+                            start_ms: cycle * cycle_ms + (i % limit as usize) as u32 * (2 * lat as u32 + 20), key, a_w, a_r, b_w, b_r });
                     }
                     let total_ms = cycles as u32 * cycle_ms;
                     let mut events: Vec<(u32, Event)> = vec![];
